@@ -119,6 +119,11 @@ func (c *Compiler) Compile(node parser.Node) error {
 		if err := c.emit(OpMap, len(node.Pairs)); err != nil {
 			return err
 		}
+	case *parser.EmptyStmt:
+		// blank lines and comments compile to nothing
+	default:
+		// never leave a statement or expression out silently
+		return fmt.Errorf("%w: %T is not supported by the compiler yet", ErrUnsupportedExpression, node)
 	}
 	return nil
 }
